@@ -20,6 +20,7 @@ func init() {
 	register(&Prop{ID: "C13", Run: runC13, NeedDeps: true,
 		Technique: "static analysis (whole program, dependencies included): nil-safety obligations on go/ssa (decoded-pointer sources, nil-inflow phis, errors.As failure edge, never-assigned fields) with per-parameter summaries to a fixed point; constant/table agreement; dominance guards of validity writes",
 		Decided: []string{
+			"the raw document reaches mapstructure's struct decoder only after a key checker of the package (range over interface-keyed maps, comma-ok assertion to string, error, recursion) returned nil on it (C13.decode-keys-checked, F31)",
 			"in the third-party functions the loader packages reach through static calls (depth 3), a strings.Index-like result used as a slice bound or index is tested or implied non-negative on every way there, or every repository caller closes the open way (C13.lib-index-checked)",
 			"pointers that come out of the decoded definition (pointer fields, elements of []*stepDef/[]*funcDef/[]*conditionDef) are dereferenced only under a dominating non-nil test, also across calls (C13.nil-decoded)",
 			"a pointer whose phi has a nil inflow is not dereferenced without a test (C13.nil-phi)",
@@ -60,6 +61,7 @@ func runC13(e *Env) {
 	c.submatch()
 	c.serialisable()
 	c.validity()
+	c13DecodeKeysChecked(e)
 }
 
 func (c *c13) collectDefTypes() {
